@@ -144,7 +144,9 @@ def ini_value_text(v: Any, style: str) -> str:
     if isinstance(v, str):
         return ini_str(v, style)
     if isinstance(v, list):
-        if style == 'plain' and len(v) >= 1 and all(plain_safe(x) for x in v):
+        # one item per continuation line -- but a line that starts with # or ; is a COMMENT for configparser (full-line
+        # comment prefixes; inline comments are off in IniConfigParser's ConfigParser()), so such items need the list form
+        if style == 'plain' and len(v) >= 1 and all(plain_safe(x) and x[0] not in '#;' for x in v):
             return ''.join('\n    ' + ini_escape(x) for x in v)
         return '[' + ', '.join(ini_escape(repr(x)) for x in v) + ']'
     raise TypeError(v)
@@ -354,6 +356,17 @@ class Check(PropertyCheck):
                         cases.append({'k': 'e2e_option', 'opt': o['dest'], 'key': key, 'fmt': fmt, 'style': 'plain',
                                       'value': items[:n], 'cli': ['%s=%s' % (opt, x) for x in items[:n]], 'override': None,
                                       'text': '%s\n%s =%s\n' % (FORMATS[fmt][1], key, ''.join('\n    ' + x for x in items[:n]))})
+        # (3) items that would read as comment lines in the one-per-line style are written as a list display
+        for o in self.table:
+            if o['kind'] != 'KAppend' or o['dest'] == 'privacy':
+                continue
+            opt = o['strings'][0]
+            for items in (['#c'], ['a', ';b'], ['# x', 'y']):
+                for fmt in ini_fmts:
+                    txt_ = file_text(fmt, [(o['keys'][0], items)], 'plain')
+                    assert '\n    #' not in txt_ and '\n    ;' not in txt_, txt_
+                    cases.append({'k': 'e2e_option', 'opt': o['dest'], 'key': o['keys'][0], 'fmt': fmt, 'style': 'plain',
+                                  'value': items, 'cli': ['%s=%s' % (opt, x) for x in items], 'override': None, 'text': txt_})
         payloads = [self.e2e_payload(dict(c, k='e2e')) for c in cases]
         impl = lib.run_impl_worker(WORKER, payloads, jobs=8, timeout=3000)
         self.evaluations += 2 * len(cases)
